@@ -112,7 +112,17 @@ fn run_worker(bin: &Path, cwd: &Path, plan: &Value, timeout_s: u64) -> WorkerRes
 }
 
 fn run_worker_env(bin: &Path, cwd: &Path, plan: &Value, timeout_s: u64, profile: usize) -> WorkerResult {
-    let mut child = match Command::new(bin)
+    // resource fault: a low limit on open file descriptors for this process (plan field
+    // schedule.rlimit_nofile); code that closes what it opens never notices
+    let mut cmd = match plan["schedule"]["rlimit_nofile"].as_u64() {
+        Some(n) => {
+            let mut c = Command::new("/bin/sh");
+            c.arg("-c").arg(format!("ulimit -n {} && exec \"$0\" \"$@\"", n)).arg(bin);
+            c
+        }
+        None => Command::new(bin),
+    };
+    let mut child = match cmd
         .arg("-")
         .current_dir(cwd)
         .env_clear()
@@ -490,6 +500,18 @@ fn has_class(rep: &RunReport, class: &str) -> bool {
 }
 
 /// Delta-debugs a failing history while the same violation class persists.
+/// An explicit decision list in place of a seeded schedule; the flags that are not about the
+/// choice of who runs next (fine yield points, the descriptor limit of the process) are kept.
+fn frozen(old: &Value, decisions: Value) -> Value {
+    let mut v = json!({"kind": "list", "decisions": decisions});
+    for k in ["fine", "rlimit_nofile"] {
+        if !old[k].is_null() {
+            v[k] = old[k].clone();
+        }
+    }
+    v
+}
+
 fn minimise(h: &History, class: &str, cfg: &Cfg, oracle: &Oracle, budget: usize) -> (History, usize) {
     let mut attempts = 0usize;
     let mut best = h.clone();
@@ -505,7 +527,7 @@ fn minimise(h: &History, class: &str, cfg: &Cfg, oracle: &Oracle, budget: usize)
         if let Some(res) = &rep.result {
             if has_class(&rep, class) && res["decisions"].is_array() {
                 let mut cand = best.clone();
-                cand.schedule = json!({"kind": "list", "decisions": res["decisions"]});
+                cand.schedule = frozen(&best.schedule, res["decisions"].clone());
                 let rep2 = run_and_check(&cand, cfg, oracle, false);
                 attempts += 1;
                 if has_class(&rep2, class) {
@@ -580,7 +602,7 @@ fn minimise(h: &History, class: &str, cfg: &Cfg, oracle: &Oracle, budget: usize)
             let try_d = |d: &Vec<u64>, attempts: &mut usize| -> bool {
                 *attempts += 1;
                 let mut cand = best.clone();
-                cand.schedule = json!({"kind": "list", "decisions": d});
+                cand.schedule = frozen(&best.schedule, json!(d));
                 has_class(&run_and_check(&cand, cfg, oracle, false), class)
             };
             let zeros = vec![0u64; 0];
@@ -613,7 +635,7 @@ fn minimise(h: &History, class: &str, cfg: &Cfg, oracle: &Oracle, budget: usize)
                 }
             }
             let mut cand = best.clone();
-            cand.schedule = json!({"kind": "list", "decisions": decisions});
+            cand.schedule = frozen(&best.schedule, json!(decisions));
             attempts += 1;
             if has_class(&run_and_check(&cand, cfg, oracle, false), class) {
                 best = cand;
@@ -806,6 +828,9 @@ fn absorb(agg: &mut Agg, subseed: u64, h: &History, rep: &RunReport, oracle: &Or
         }
         if h.labels.iter().any(|l| l == "long") {
             bump(&mut agg.probes, "long_histories_120_to_400_calls", 1);
+        }
+        if h.labels.iter().any(|l| l == "rlimit-nofile") {
+            bump(&mut agg.fault_kinds, "fired:process-limited-to-40-or-64-open-descriptors", 1);
         }
         if res["stats"]["poisoned_acquisitions"].as_u64().unwrap_or(0) > 0 {
             bump(&mut agg.probes, "runs_with_lock_acquired_after_it_was_poisoned", 1);
